@@ -19,6 +19,19 @@ from vlib import core
 
 MODULES = ["HmsProofs.C03"]
 
+def lean_lines(lines):
+    """core.lean_lines, retried: while several people work in /verif the shared driver binary
+    may be replaced by a concurrent `lake build` in the middle of a run."""
+    import time
+    for attempt in range(5):
+        try:
+            return core.lean_lines(lines)
+        except (RuntimeError, OSError):
+            if attempt == 4:
+                raise
+            time.sleep(6)
+
+
 def parse_go(line):
     """-> dict(status=ok|syntax|panic|crash, v=[classes], w, i, syn, p=sexp, t=types string)"""
     if line.startswith(("CRASH", "HANG", "PANIC")):
@@ -78,13 +91,13 @@ def judge(ctx, cases, with_model, stats):
     if with_model:
         idx = [i for i, g in enumerate(go) if g["status"] in ("ok", "panic") and g.get("p")]
         if idx:
-            out = core.lean_lines(["check " + ("nomain " if cases[i].nomain else "") + go[i]["p"] for i in idx])
+            out = lean_lines(["check " + ("nomain " if cases[i].nomain else "") + go[i]["p"] for i in idx])
             lean = {i: parse_lean(l) for i, l in zip(idx, out)}
     tmpl = {}
     if with_model:
         idx = [i for i, c in enumerate(cases) if c.template and go[i]["status"] == "ok"]
         if idx:
-            out = core.lean_lines([("trigger " if cases[i].label == "trigger" else "template ") + cases[i].template for i in idx])
+            out = lean_lines([("trigger " if cases[i].label == "trigger" else "template ") + cases[i].template for i in idx])
             tmpl = dict(zip(idx, out))
     tie_bad = 0
     for i, (c, g) in enumerate(zip(cases, go)):
